@@ -136,6 +136,20 @@ class ParticleObjectStorer(BaseStorer):
         None
         """
         super().__init__(particle_object_list, **kwargs)
+        # The loader reports the particle numbers of the complete input list;
+        # count the events that are actually held (after the event selection
+        # and the filters), labelled by their position in the input list
+        first_event = kwargs.get("events", 0)
+        if isinstance(first_event, tuple):
+            first_event = first_event[0]
+        self.num_events_ = len(self.particle_list_)
+        self.num_output_per_event_ = np.array(
+            [
+                [first_event + i, len(event)]
+                for i, event in enumerate(self.particle_list_)
+            ],
+            dtype=int,
+        ).reshape(-1, 2)
         del self.loader_
 
     def _update_after_merge(self, other: BaseStorer) -> None:
